@@ -13,7 +13,8 @@ EXEMPT = {
 
 
 def run(ctx):
-    fbs = ctx.facts(['K17', 'K20'], kinds=('probe',), only=r'p_when\.cpp$', tests=r'/test/')
+    fbs = ctx.facts(['K17', 'K20'], kinds=('probe',), only=r'p_when\.cpp$', tests=r'/test/',
+                    quick_tests=r'unit/algo/(when_all|when_all_tuple|join|when)\.cpp|example/async/when_all\.cpp')
     ra = ctx.rule('R-ACCESSOR', 'every Result accessor call sees exactly the matching state on every CFG path',
                   minimum=12)
     rs = ctx.rule('R-SETONCE', 'the output promise is set at most once per path, only after winning an RMW election '
